@@ -14,7 +14,7 @@ app = VerusUnit("c11_instance", "c11_instance", rlimit=30)
 yr = VerusUnit("c13_yen_run", "c13_yen_run", rlimit=60, paired_kani=(wit, []))
 ke = VerusUnit("c01_ksp_edge_oriented", "c01_ksp_edge_oriented", rlimit=60, paired_kani=(wit, []))
 UNITS = [ke, al, bt, eo, dp, sv, yr, app, wit]
-EXPLANATION = ("run_a_star / advance_search / get_last_traversed_edge_id / Direction::{tree_key_vertex_id, terminal_vertex_id} extracted verbatim; "
+EXPLANATION = ("from EVERY tree entry a chain of parent links leads to the search origin (lemma_parents_reach_source, unit AL: pigeonhole on the finite tree with strictly decreasing labels) and never revisits a vertex (lemma_no_revisit); run_a_star / advance_search / get_last_traversed_edge_id / Direction::{tree_key_vertex_id, terminal_vertex_id} extracted verbatim; "
                "loop invariants TW (entry edge joins parent to entry in the search direction), DOM, POT (labels strictly decrease along parents) "
                "verified for every graph, direction and model configuration satisfying the assumed callee contracts; no-revisit lemma; "
                "single-via alternatives (unit c13_single_via): every returned alternative is a forward-tree route to a via vertex followed by the re-traversed reverse-tree route, and with TW of both trees it is a contiguous "
